@@ -71,13 +71,15 @@ Print Assumptions C02_one_owner.
    range pools [kinds_ok], subscriber ids distinct, sessions start without addresses.
 
    C02_told_is_recorded — in EVERY state reachable in the Repaired model by ANY history over the whole event
-   alphabet (PA PI PT ID IQ IS IR IT IA, any arguments, any candidate choice), for every session:
+   alphabet (PA PI PT ID IQ IS IV IR IL IT IA and Restart, any arguments, any candidate choice; Restart = the
+   process dies, registry/provider tables/sessions are lost and restoreSessions rebuilds them from the persisted
+   images), for every session:
    what it holds (PPPoE: recorded IPv4/IPv6/PD; IPoE: last OFFER/ACK yiaddr, advertised IA_NA/PD) is owned by that
    session in the registry (leased to it in a pool containing it, or recorded for it in its VRF's static ledger);
    for PPPoE the recorded IPv4 address is the IPCP-told one (or none), and the told one is owned while live. *)
 Theorem C02_told_is_recorded :
   forall ps ss st,
-  NoDup (map pool_id ps) -> Forall pool_wf ps -> kinds_ok (mkReg ps []) ->
+  NoDup (map pool_id ps) -> Forall pool_wf ps -> kinds_ok (mkReg ps []) -> resettable (mkReg ps []) ->
   NoDup (map s_id ss) -> Forall fresh_sess ss ->
   reach Repaired (init_state ps ss) st ->
   forall s, In s (st_sess st) ->
@@ -92,13 +94,20 @@ Print Assumptions C02_told_is_recorded.
    hold the same IPv4 address / IPv6 address / delegated prefix are the same session. *)
 Theorem C02_unique :
   forall ps ss st,
-  NoDup (map pool_id ps) -> Forall pool_wf ps -> kinds_ok (mkReg ps []) -> pools_disjoint (mkReg ps []) ->
+  NoDup (map pool_id ps) -> Forall pool_wf ps -> kinds_ok (mkReg ps []) -> resettable (mkReg ps []) ->
+  pools_disjoint (mkReg ps []) ->
   NoDup (map s_id ss) -> Forall fresh_sess ss ->
   reach Repaired (init_state ps ss) st ->
   forall s1 s2 f x, In s1 (st_sess st) -> In s2 (st_sess st) -> s_vrf s1 = s_vrf s2 ->
     holds s1 f = Some x -> holds s2 f = Some x -> s1 = s2.
 Proof. exact unique_all. Qed.
 Print Assumptions C02_unique.
+
+(* range pools are well-formed again after a reset (hypothesis [resettable] of the two theorems above) *)
+Theorem C02_range_pools_resettable :
+  forall ps, (forall p, In p ps -> exists lo hi ex, p_geom p = GRange lo hi ex) -> resettable (mkReg ps []).
+Proof. exact range_resettable. Qed.
+Print Assumptions C02_range_pools_resettable.
 
 (* initial registries built from address ranges are well-formed *)
 Theorem C02_initial_pools_wf :
@@ -180,17 +189,20 @@ Print Assumptions C02_nonvacuous.
    which two live sessions of one VRF hold (different) addresses *)
 Definition w4_ps := [new_pool F4 1 0 0 (GRange a1 a2 [])].
 Definition w4_ss := [new_sess 1 true (Some 0) None 1; new_sess 2 false (Some 0) None 2].
-Definition w4_ops := [PA 1 0 None None None None None None; ID true true None 2 0 None None; PI 1 (Some a1)].
+Definition w4_ops := [PA 1 0 None None None None None None; ID true true None 2 0 None None; PI 1 (Some a1); Restart;
+                      ID true true None 2 0 None None].
 Example C02_unique_nonvacuous :
-  NoDup (map pool_id w4_ps) /\ Forall pool_wf w4_ps /\ kinds_ok (mkReg w4_ps []) /\ pools_disjoint (mkReg w4_ps []) /\
+  NoDup (map pool_id w4_ps) /\ Forall pool_wf w4_ps /\ kinds_ok (mkReg w4_ps []) /\ resettable (mkReg w4_ps []) /\
+  pools_disjoint (mkReg w4_ps []) /\
   NoDup (map s_id w4_ss) /\ Forall fresh_sess w4_ss /\
   (let st := run_first Repaired (init_state w4_ps w4_ss) w4_ops in
    reach Repaired (init_state w4_ps w4_ss) st /\
-   holds_of st 1 F4 = Some (a1, 0) /\ holds_of st 2 F4 = Some (a2, 0)).
+   holds_of st 1 F4 = None /\ holds_of st 2 F4 = Some (a2, 0)).   (* the PPPoE session ends at the restart *)
 Proof.
   split; [simpl; constructor; [simpl; tauto|constructor]|].
   split; [constructor; [apply new_pool_wf_range|constructor]|].
   split; [intros p [<-|[]] _ sl; reflexivity|].
+  split; [apply range_resettable; intros p [<-|[]]; eexists _, _, _; reflexivity|].
   split; [intros p q x [<-|[]] [<-|[]] _ _ _; reflexivity|].
   split; [simpl; constructor; [simpl; intros [H|[]]; discriminate H|constructor; [simpl; tauto|constructor]]|].
   split; [constructor; [apply fresh_new|constructor; [apply fresh_new|constructor]]|].
